@@ -154,6 +154,11 @@ for n in RESERVED:
         inst("name:" + v, "name0", False, set_name(v))
 for n in NEAR:
     inst("name:" + n, "name0", True, set_name(n))
+# reserved PATTERNS matched by long names (12+ characters), and long names that only resemble them
+for n in ("_calibration_data_", "uint000000000064", "void123456789012", "Float128128128128", "uq1234567_89012", "q12345678_9012345", "int0000000000000000008", "_" + "x" * 40 + "_", "void" + "9" * 30):
+    inst("name:" + n, "name0", False, set_name(n))
+for n in ("calibration_data_", "_calibration_data", "uint000000000064x", "unsigned_integer_64", "x" * 60, "voidance123456789", "truncated_but_long_name", "optional_extension_field"):
+    inst("name:" + n, "name0", True, set_name(n))
 for n in ("é", "aé", "a-b", "a.b", "9a", "a b", "\u212a", "\u212aelvin", "x\u212a", "e\u0301", "caf\u00e9", "\uff21bc"):  # not identifiers at all / non-ASCII (incl. characters that NFC / NFKC / case folding map to ASCII)
     inst("name:" + n, "name0", False, set_name(n))
 inst("constname:uint8", "cname", False, lambda S: S["sections"][0]["attrs"].__setitem__(-1 if S["sections"][0]["attrs"][-1][0] == "const" else [i for i, a in enumerate(S["sections"][0]["attrs"]) if a[0] == "const"][0], ["const", "uint8", "uint8", "3"]))
@@ -411,6 +416,27 @@ def multi_cases():
         yield {"kind": "multi", "family": "port-of-dependency", "files": files, "root": "vnd", "lookups": ["lk"], "valid": ok, "allow": allow, "label": [port, allow, "User", "lookup-root"]}
         files = {"uavcan/%d.Middle.1.0.dsdl" % port: body, "vnd/User.1.0.dsdl": "uavcan.Middle.1.0 m\n@sealed\n"}
         yield {"kind": "multi", "family": "port-of-dependency", "files": files, "root": "vnd", "lookups": ["uavcan"], "valid": allow or 7168 <= port <= 8191, "allow": allow, "label": [port, allow, "User", "standard-lookup-root"]}
+    # (d) long structures (17+ fields, composites late in the list): the extent rule is judged against the real longest representation
+    for n in (16, 17, 20, 33):
+        for lead in ("bool", "uint5", "uint8"):
+            fields = ["%s f%d" % (lead if i % 16 == 0 else ("uint3" if i % 3 else "uint8"), i) for i in range(n)]
+            fields[n - 2] = "Old.1.0 late"
+            bits = 0
+            for f in fields:
+                t = f.split()[0]
+                w = {"bool": 1, "uint5": 5, "uint8": 8, "uint3": 3, "Old.1.0": 8}[t]
+                if t == "Old.1.0":
+                    bits = -(-bits // 8) * 8
+                bits += w
+            mx = -(-bits // 8) * 8
+            for delta, ok in ((0, True), (-8, False), (8, True), (4, False)):
+                files = {"vnd/Old.1.0.dsdl": "uint8 v\n@sealed\n", "vnd/Long.1.0.dsdl": "\n".join(fields) + "\n@extent %d\n" % (mx + delta)}
+                yield {"kind": "multi", "family": "long-structure-extent", "files": files, "root": "vnd", "valid": ok, "allow": False, "label": [n, lead, delta]}
+    # (e) minor versions whose numbers have different digit counts: a port-ID may be ADDED by the newer one, never removed
+    for lo, hi in ((2, 10), (9, 10), (7, 42), (1, 10), (9, 100), (99, 100), (2, 3)):
+        for port_on, ok in (("newer", True), ("older", False), ("both", True), ("none", True)):
+            files = {"vnd/%sStatus.1.%d.dsdl" % ("6200." if port_on in ("older", "both") else "", lo): "uint8 a\n@sealed\n", "vnd/%sStatus.1.%d.dsdl" % ("6200." if port_on in ("newer", "both") else "", hi): "uint8 a\n@sealed\n"}
+            yield {"kind": "multi", "family": "minor-version-port", "files": files, "root": "vnd", "valid": ok, "allow": False, "label": [lo, hi, port_on]}
     # (c) a broken dependency reached through several users / through a chain: every static rule applies to what is read, wherever it is read from
     for bad, ok in (("uint65 a\n@sealed\n", False), ("uint8 a\n", False), ("@union\nuint8 a\n@sealed\n", False), ("uint8 a\n@extent 4\n", False), ("uint8 a\n@sealed\n", True)):
         for chain in (1, 2, 3):
